@@ -2,6 +2,7 @@
 import SevenZ.Driver.Header
 import SevenZ.Model.WriteSession
 import SevenZ.Model.AppendSession
+import SevenZ.Model.EncodedHeader
 namespace SevenZ.Driver
 open SevenZ SevenZ.Impl
 
@@ -59,6 +60,16 @@ def sessionHandler (op : String) (args : List String) : Option String :=
     let ms ← (if members = "." then some [] else (members.splitOn ";").mapM parseWMember)
     let cfg : WConfig Bytes := { coders := cs, methodsMap := mmap, chain := chain, enableDigests := ← parseBool en }
     pure (match sessionArchive cfg ms with
+      | none => "none"
+      | some b => toHex b)
+  | "ws.enc", [hcoders, hstages, hbs, en, coders, mm, stages, members] => do
+    let chain ← parseWStages stages
+    let mmap ← parseBits mm
+    let cs ← (coders.splitOn "|").mapM parseCoderS
+    let ms ← (if members = "." then some [] else (members.splitOn ";").mapM parseWMember)
+    let cfg : WConfig Bytes := { coders := cs, methodsMap := mmap, chain := chain, enableDigests := ← parseBool en }
+    let hcfg : HConfig Bytes := { coders := ← (hcoders.splitOn "|").mapM parseCoderS, chain := ← parseWStages hstages, blocksize := ← hbs.toNat? }
+    pure (match sessionArchiveEncoded cfg hcfg ms with
       | none => "none"
       | some b => toHex b)
   | "ws.app", [base, en, coders, mm, stages, members] => do
